@@ -63,7 +63,7 @@ static int count_dir(const char *path)
 }
 
 static struct {
-	uint64_t cycles, main_cycles, thread_deinit_cycles, thread_exit_cycles, fds_registered, flag_checks, timers_left_at_deinit, max_timers,
+	uint64_t cycles, main_cycles, thread_deinit_cycles, thread_exit_cycles, fds_registered, write_ends_registered, flag_checks, timers_left_at_deinit, max_timers,
 		 pumps, pool_items, hook_checks, growth_checks;
 } S;
 
@@ -87,7 +87,7 @@ static void check_flags(int fd)
 static void use_library(struct cyc *cy, int leave_timers)
 {
 	struct rng *r = &cy->r;
-	int nfd = 1 + rng_n(r, 6), i, p[8][2];
+	int nfd = 1 + rng_n(r, 6), i, p[8][2], side;
 	struct iv_fd *fds[8];
 	struct iv_timer *tm, quit_t;
 	int ntm = rng_pct(r, 15) ? 16390 + rng_n(r, 40) : rng_pct(r, 50) ? 120 + rng_n(r, 30) : rng_n(r, 40);
@@ -106,10 +106,13 @@ static void use_library(struct cyc *cy, int leave_timers)
 		else if (socketpair(AF_UNIX, SOCK_STREAM, 0, p[i]) < 0) _exit(2);
 		fds[i] = malloc(sizeof(struct iv_fd));
 		IV_FD_INIT(fds[i]);
-		fds[i]->fd = p[i][0];
+		/* either end: the write end of a pipe is a write-only descriptor (access mode bits differ), a socket is read-write */
+		side = rng_pct(r, 40);
+		fds[i]->fd = p[i][side];
 		fds[i]->cookie = cy;
-		if (rng_pct(r, 60)) fds[i]->handler_in = nop;
+		if (!side && rng_pct(r, 60)) fds[i]->handler_in = nop;
 		if (rng_pct(r, 30)) fds[i]->handler_err = nop;
+		if (side) S.write_ends_registered++;
 		if (rng_pct(r, 50)) {
 			iv_fd_register(fds[i]);
 		} else {
@@ -117,7 +120,7 @@ static void use_library(struct cyc *cy, int leave_timers)
 			if (iv_fd_register_try(fds[i]) != 0) _exit(2);
 			vt_in_register_try = 0;
 		}
-		check_flags(p[i][0]);
+		check_flags(p[i][side]);
 		S.fds_registered++;
 	}
 	for (i = 0; i < nfd; i++) {
@@ -322,10 +325,10 @@ int main(int argc, char **argv)
 	for (i = first; i < first + n; i++)
 		run_cycle(i, seed);
 	mon_printf("STAT method=%s cycles=%llu main_thread_cycles=%llu thread_with_deinit_cycles=%llu thread_exit_without_deinit_cycles=%llu fds_registered=%llu "
-		   "flag_checks=%llu timers_left_registered_at_teardown=%llu max_timers=%llu pumps=%llu pool_items=%llu hook_checks=%llu growth_checks=%llu "
+		   "flag_checks=%llu write_only_descriptors_registered=%llu timers_left_registered_at_teardown=%llu max_timers=%llu pumps=%llu pool_items=%llu hook_checks=%llu growth_checks=%llu "
 		   "module_init_hooks=%ld module_teardown_hooks=%ld violations=%d\n", g_method, (unsigned long long)S.cycles, (unsigned long long)S.main_cycles,
 		   (unsigned long long)S.thread_deinit_cycles, (unsigned long long)S.thread_exit_cycles, (unsigned long long)S.fds_registered,
-		   (unsigned long long)S.flag_checks, (unsigned long long)S.timers_left_at_deinit, (unsigned long long)S.max_timers, (unsigned long long)S.pumps,
+		   (unsigned long long)S.flag_checks, (unsigned long long)S.write_ends_registered, (unsigned long long)S.timers_left_at_deinit, (unsigned long long)S.max_timers, (unsigned long long)S.pumps,
 		   (unsigned long long)S.pool_items, (unsigned long long)S.hook_checks, (unsigned long long)S.growth_checks, (long)tls_inits, (long)tls_deinits, mon_viol_total);
 	mon_printf("DONE\n");
 	return 0;
